@@ -162,6 +162,9 @@ func mkValue(id, vid, dyn int) reflect.Value {
 		v.Field(0).SetInt(int64(vid))
 		return v
 	case id == tyE0:
+		if vid == 0 {
+			return reflect.ValueOf((*E0)(nil)) // provenance id 0: the nil pointer
+		}
 		return reflect.ValueOf(&E0{ID: vid})
 	case id == tyL0:
 		return reflect.ValueOf(L0{vid})
